@@ -80,6 +80,26 @@ var specStructs = [][2]string{
 	{"tlb.CommonMsgInfo", "CommonMsgInfo"}, {"tlb.TickTock", "TickTock"}, {"tlb.StateInit", "StateInit"},
 	{"tlb.Message", "Message"}, {"wallet.MessageV3", "WalletV3Body"}, {"wallet.MessageV4", "WalletV4Body"},
 	{"wallet.SignedMsgBody", "SignedMsgBody"},
+	{"tlb.StorageUsed", "StorageUsed"},
+	{"tlb.StorageExtraInfo", "StorageExtraInfo"},
+	{"tlb.StorageInfo", "StorageInfo"},
+	{"tlb.AccountState", "AccountState"},
+	{"tlb.AccountStorage", "AccountStorage"},
+	{"tlb.ExistedAccount", "ExistedAccount"},
+	{"tlb.Account", "Account"},
+	{"tlb.ShardAccount", "ShardAccount"},
+	{"tlb.AccountStatus", "AccountStatus"},
+	{"tlb.AccStatusChange", "AccStatusChange"},
+	{"tlb.ComputeSkipReason", "ComputeSkipReason"},
+	{"tlb.TrStoragePhase", "TrStoragePhase"},
+	{"tlb.TrCreditPhase", "TrCreditPhase"},
+	{"tlb.TrComputePhase", "TrComputePhase"},
+	{"tlb.TrActionPhase", "TrActionPhase"},
+	{"tlb.TrBouncePhase", "TrBouncePhase"},
+	{"tlb.SplitMergeInfo", "SplitMergeInfo"},
+	{"tlb.TransactionDescr", "TransactionDescr"},
+	{"tlb.HashUpdate", "HashUpdate"},
+	{"tlb.Transaction", "Transaction"},
 }
 
 func genC04(g *h.G) {
